@@ -37,20 +37,34 @@ TolRel == 1000            \* 1e-9 in units of 1e-12
 
 (* ---- "A successful informed sample for cost bound c lies within the space bounds ..." *)
 SuccessInBounds(r) == \A i \in 1..Len(r.ret) : r.ret[i] = 1 => r.inb[i] = 1
-(* ---- "... and has a heuristic solution cost strictly below c ..."                      *)
-SuccessBelowBound(r) == \A i \in 1..Len(r.ret) : r.ret[i] = 1 => r.lt[i] = 1 /\ r.xlt[i] = 1
+(* ---- "... and has a heuristic solution cost strictly below c ..."  exactly as stated, on *)
+(* the cost the sampler itself reports.  The bound must lie above the focal distance (the  *)
+(* property's quantifier); degen = 1 marks calls with a bound at or below it.              *)
+SuccessBelowBound(r) == r.degen = 0 => \A i \in 1..Len(r.ret) : r.ret[i] = 1 => r.lt[i] = 1
+(* the same on the harness's own cost, with the 1e-9 margin: fails only when the sample is  *)
+(* outside the informed set by more than rounding                                           *)
+SuccessBelowBoundCrossCheck(r) == r.degen = 0 => \A i \in 1..Len(r.ret) : r.ret[i] = 1 => r.xlt[i] = 1
 (* ---- "... (and not below the lower bound when one is given)."                          *)
 SuccessNotBelowLowerBound(r) == \A i \in 1..Len(r.ret) : r.ret[i] = 1 => r.ge[i] = 1 /\ r.xge[i] = 1
+(* every call returns, with success or without, within the attempts it was allowed - also   *)
+(* when the informed set has measure zero (bound = focal distance), which planners rely on.  *)
+(* att[i] / nmax[i]: draws counted by the harness's state space, numIters_ (empty when the   *)
+(* call was not made on the counting space; a call that does not return is a Hang event)     *)
+ReturnsWithinAttemptBound(r) == /\ Len(r.att) = Len(r.nmax)
+                                /\ \A i \in 1..Len(r.att) : r.att[i] >= 0 /\ r.att[i] <= r.nmax[i]
 (* the cost the sampler reports is the heuristic the property talks about                 *)
 ReportedCostIsFocalSum(r) == \A i \in 1..Len(r.ret) : r.agree[i] = 1
 SampleWellFormed(r) == /\ Len(r.ret) > 0 /\ SameLen(r, {"inb", "lt", "ge", "xlt", "xge", "agree"})
                        /\ Flags(r.ret) /\ Flags(r.inb) /\ Flags(r.lt) /\ Flags(r.ge) /\ Flags(r.xlt)
-                       /\ Flags(r.xge) /\ Flags(r.agree)
+                       /\ Flags(r.xge) /\ Flags(r.agree) /\ r.degen \in {0, 1}
 SampleFailed(r) ==
     IF ~SampleWellFormed(r) THEN {"Malformed"}
-    ELSE {c \in {"SuccessInBounds", "SuccessBelowBound", "SuccessNotBelowLowerBound", "ReportedCostIsFocalSum"} :
+    ELSE {c \in {"SuccessInBounds", "SuccessBelowBound", "SuccessBelowBoundCrossCheck", "SuccessNotBelowLowerBound",
+                 "ReportedCostIsFocalSum", "ReturnsWithinAttemptBound"} :
             ~CASE c = "SuccessInBounds" -> SuccessInBounds(r)
                [] c = "SuccessBelowBound" -> SuccessBelowBound(r)
+               [] c = "SuccessBelowBoundCrossCheck" -> SuccessBelowBoundCrossCheck(r)
+               [] c = "ReturnsWithinAttemptBound" -> ReturnsWithinAttemptBound(r)
                [] c = "SuccessNotBelowLowerBound" -> SuccessNotBelowLowerBound(r)
                [] c = "ReportedCostIsFocalSum" -> ReportedCostIsFocalSum(r)}
 
